@@ -27,6 +27,8 @@ def build(desc, s):
             td["uses"] = [names[ti_ - 1]]
         if desc["argdir"] == "custom":
             td["argmaps"] = {"path": "conf/%s-argmaps" % t}
+        elif desc["argdir"] == "shared":
+            td["argmaps"] = {"path": "conf/shared-argmaps"}   # one argmap directory for all targets
         if desc["cmdsrc"] == "custompath":
             td["commands"] = {"path": "tools/%s-cmds" % t}
         elif desc["cmdsrc"] == "defpath":
@@ -52,10 +54,13 @@ def build(desc, s):
                 p = r.command_file(t, c, "x")
             expect_exe[(t, c)] = p
     expect_args = {}
+    shared = desc["argdir"] == "shared"
     for ti, t in enumerate(names):
-        adir = ("conf/%s-argmaps" % t) if desc["argdir"] == "custom" else os.path.join(t, "monorail/argmap")
+        adir = ("conf/%s-argmaps" % t) if desc["argdir"] == "custom" else "conf/shared-argmaps" if shared else os.path.join(t, "monorail/argmap")
+        if shared:
+            t = "shared"   # the files are the same for every target, and so are the expected arguments
         for m in ("base", "m1", "m2"):
-            kind = desc["files"][ti][m]
+            kind = desc["files"][0 if shared else ti][m]
             if kind is None:
                 continue
             if kind == "nocmd":
@@ -63,16 +68,17 @@ def build(desc, s):
             else:
                 body = {c: file_args(t, m, c, desc["vocab"].get(m, [])) for c in cmds}
             r.write(os.path.join(adir, m + ".json"), json.dumps(body))
+        fi = 0 if shared else ti
         for c in cmds:
             exp = []
-            if not desc["no_base"] and desc["files"][ti]["base"] == "args":
+            if not desc["no_base"] and desc["files"][fi]["base"] == "args":
                 exp += file_args(t, "base", c, desc["vocab"].get("base", []))
             for m in desc["argmaps_opt"] or []:
-                if m in ("m1", "m2") and desc["files"][ti][m] == "args":
+                if m in ("m1", "m2") and desc["files"][fi][m] == "args":
                     exp += file_args(t, m, c, desc["vocab"].get(m, []))
             if desc["args"] is not None and ti == 0:
                 exp += desc["args"]
-            expect_args[(t, c)] = exp
+            expect_args[(names[ti], c)] = exp
     return r, names, expect_exe, expect_args
 
 
@@ -169,6 +175,13 @@ def scenarios(tier):
                         files = [{"base": "args", "m1": "args", "m2": "args" if i % 2 == 0 else "nocmd"} for i in range(n)]
                         out.append({"targets": n, "commands": cmds, "files": files, "argmaps_opt": o, "no_base": nb, "args": None,
                                     "argdir": "default", "cmdsrc": "default", "vocab": plain, "chain": True, "select": select})
+    # (2d) one argmap directory shared by all targets (argmaps.path identical)
+    for o in (None, ["m1"], ["m2", "m1"], ["m1", "m1"]):
+        for nb in (False, True):
+            for n in (2, 3):
+                files = [{"base": "args", "m1": "args", "m2": "args"}] * n
+                out.append({"targets": n, "commands": ["build", "test"], "files": files, "argmaps_opt": o, "no_base": nb,
+                            "args": None, "argdir": "shared", "cmdsrc": "default", "vocab": plain})
     # (2c) invoked with -f from a different directory: cwd, argv and resolution must not change
     for cmdsrc in ("default", "custompath", "defpath", "defempty"):
         for argdir in ("default", "custom"):
